@@ -251,6 +251,9 @@ func summarize(eng *Engine, vcs []*VC, missing []string, prop, tier string, verb
 		}
 		if verbose {
 			fmt.Printf("  returns[%s]: %s\n", vc.con.Key, strings.Join(vc.retLines, " "))
+			if len(vc.panicWhat) > 0 {
+				fmt.Printf("  panics[%s]: %s\n", vc.con.Key, strings.Join(vc.panicWhat, "; "))
+			}
 			for a := range vc.assumes {
 				fmt.Printf("  assume[%s]: %s\n", vc.con.Key, a)
 			}
